@@ -53,10 +53,9 @@ structure Present (c : Config) (ty idx : Nat) (d : List Nat) (w : Nat) : Prop wh
   hmax  : d.length ≤ c.img.maxLen
   hbytes : c.img.bytesAt (c.img.ptrOf w) d.length = d
 
-theorem present_of_romOk (c : Config) (coll : Collection) (ty idx : Nat) (d : Descr)
-    (hrom : romOk c.img coll = true) (hty : ty < 256) (hidx : idx < 256)
+theorem present_of_lookupOk (c : Config) (coll : Collection) (ty idx : Nat) (d : Descr)
+    (hok : lookupOk c.img coll ty idx = true)
     (hfind : find? coll ty idx = some d) : ∃ w, Present c ty idx d.bytes w := by
-  have hok := romOk_lookupOk _ _ hrom ty idx hty hidx
   unfold lookupOk at hok
   rw [hfind] at hok
   cases hlk : c.img.lookup ty idx with
